@@ -203,6 +203,123 @@ def sig(f):
             'celma::common::', '').replace('unsigned long', 'size_t') for p in f.params), ' const' if f.d.get('const') else '')
 
 
+END = (1 << 64) - 1
+ITER = re.compile(r'celma::common::detail::FixedString(Reverse)?Iterator<(const )?char, (const )?celma::common::'
+                  r'FixedString<(\d+)>>$')
+
+
+def iterators(chk, prog, eng):
+    """O4: the iterator classes.  Invariant of an iterator bound to a string: mIndex == EndValue or
+    mIndex < length() (validity after a later mutation of the string is outside the claim).  Every
+    member is analysed from each of the two cases (and with no string attached); at each exit the
+    invariant must hold again and every element access made on the way carries its O1 obligation
+    against the string's buffer."""
+    chk.rule('O4', 'iterators keep their position at the end marker or inside the text; accesses stay inside', 60)
+    members = [f for f in prog.functions if ITER.match(f.cls or '') and not f.d.get('defaulted')
+               and not f.d.get('dtor')]
+    frees = [f for f in prog.functions if f.cls is None and f.name == 'celma::common::detail::operator-'
+             and all(ITER.match(btype(q['t'].rstrip('&').strip())) for q in f.params)]
+    chk.require(len(members) >= 72 and len(frees) >= 4, 'only %d iterator members / %d differences instantiated' % (
+        len(members), len(frees)))
+
+    def attach(e, st, obj, L, case):
+        """binds the iterator object obj to a symbolic string (or to none) in the given invariant case"""
+        st.ftypes[(obj, 'mIndex')] = 'unsigned long'
+        if case == 'null':
+            st.fields[(obj, 'mpObject')] = lin(0)
+            st.fields[(obj, 'mIndex')] = lin(END)         # never attached: the in-class initialiser
+            return
+        fsn = 'fs@' + obj
+        st.fields[(obj, 'mpObject')] = Obj(fsn, 'celma::common::FixedString<%d>' % L)
+        ln, region = fs_fields(e, st, fsn, L)
+        st.assume(ge(ln, 0), le(ln, L))
+        e.add_nul(st, region, ln)
+        if case == 'end':
+            st.fields[(obj, 'mIndex')] = lin(END)
+        else:
+            ix = e.named('%s.mIndex' % obj, st, 'unsigned long')
+            st.assume(lt(ix, ln))
+            st.fields[(obj, 'mIndex')] = ix
+
+    def check_exit(e, s, f, obj, tag):
+        from ..lin import feasible, TooBig
+        ix = s.fields.get((obj, 'mIndex'))
+        po = s.fields.get((obj, 'mpObject'))
+        if not isinstance(ix, Lin):
+            chk.check(False, 'O4', f.name, 'iterator position is tracked at exit [%s]' % tag, f.loc(), repr(ix))
+            return
+        if not isinstance(po, Obj):
+            return            # no string attached: the position is never used for an access
+        ln = s.fields.get((po.name, 'mLength'))
+        try:
+            bad = feasible(s.cons + [le(ix, END - 1), ge(ix, ln)])
+        except TooBig:
+            bad = True
+        chk.check(not bad, 'O4', f.name, 'position is the end marker or inside the text at exit [%s]' % tag, f.loc(),
+                  '' if not bad else 'mIndex = %r with length %r is possible on the path [%s]' % (
+                      ix, ln, '; '.join(s.trail[-6:])))
+
+    n = 0
+    for f in sorted(members + frees, key=lambda x: (x.cls or '', x.line, x.key)):
+        m = ITER.match(f.cls or '') or ITER.match(btype(f.params[0]['t'].rstrip('&').strip()))
+        L = int(m.group(4))
+        short_cls = 'FixedString%sIterator<%schar>' % (m.group(1) or '', m.group(2) or '')
+        others = [q['name'] for q in f.params if ITER.match(btype(q['t'].rstrip('&').strip()))]
+        cases = ('null', 'end', 'in')
+        combos = [(c,) for c in cases] if f.cls and not others else \
+            [(a, b) for a in cases for b in cases]
+        for combo in combos:
+            tag = '%s::%s(%s), %s' % (short_cls, f.short, ', '.join(
+                q['t'].split('<')[0].replace('celma::common::detail::', '').replace('celma::common::', '')
+                for q in f.params), '/'.join(combo))
+            before = len(eng.obligations)
+            try:
+                if f.d.get('ctor'):
+                    if combo[0] == 'in':
+                        continue
+                    eng.root = f.name
+                    st = St()
+                    for q in f.params:
+                        if q['t'].rstrip().endswith('*') and 'FixedString<' in q['t']:
+                            if combo[0] == 'null':
+                                st.vars[q['name']] = lin(0)
+                            else:
+                                fsn = 'fs@arg'
+                                st.vars[q['name']] = Obj(fsn, 'celma::common::FixedString<%d>' % L)
+                                ln, region = fs_fields(eng, st, fsn, L)
+                                st.assume(ge(ln, 0), le(ln, L))
+                                eng.add_nul(st, region, ln)
+                        else:
+                            eng.bind_param(st, f, q)
+                    st.fields[('this', 'mpObject')] = lin(0)
+                    st.fields[('this', 'mIndex')] = lin(END)
+                    st.ftypes[('this', 'mIndex')] = 'unsigned long'
+                    finals = eng.run_ctor(f, st, [st.vars.get(q['name'] or 'arg', UNKNOWN) for q in f.params])
+                    objs = ['this']
+                else:
+                    objs = (['this'] if f.cls else []) + others
+
+                    def setup(e, st, func, objs=objs, combo=combo, L=L):
+                        for o, c in zip(objs, combo):
+                            if o != 'this':
+                                st.vars[o] = Obj(o, func.cls or 'iterator')
+                            attach(e, st, o, L, c)
+                    finals = eng.analyse(f, setup)
+            except RecursionError:
+                chk.notes.append('recursion limit in %s' % f.key)
+                continue
+            n += 1
+            for o in eng.obligations[before:]:
+                chk.check(o.held, 'O4', f.name, '%s [%s]' % (o.what, tag), o.where, o.detail)
+            for s_ in finals:
+                if s_.status in ('normal', 'return'):
+                    if f.cls and not f.d.get('const'):
+                        check_exit(eng, s_, f, 'this', tag)
+                    if isinstance(s_.ret, Obj) and (s_.ret.name, 'mIndex') in s_.fields:
+                        check_exit(eng, s_, f, s_.ret.name, tag + ' (returned iterator)')
+    return n
+
+
 def run(chk):
     drv = os.path.join(VERIF, 'drivers', 'fixed_string.cpp')
     extra = ['-DVERIF_THOROUGH'] if chk.tier == 'thorough' else []
@@ -289,6 +406,7 @@ def run(chk):
         tag = sig(f)
         for o in eng.obligations[before:]:
             chk.check(o.held, 'O1', f.name, '%s [%s]' % (o.what, tag), o.where, o.detail)
+    total += iterators(chk, prog, eng)
     chk.samples.append({'members_analysed': total, 'capacities': grid})
     if eng.unsupported:
         chk.notes.append('constructs evaluated as opaque: %s' % sorted(set(eng.unsupported))[:12])
